@@ -812,7 +812,8 @@ impl Translator {
                             self.emit(st, Instr::SubInt(Reg::Top, Reg::Top, Reg::Top))
                         }
                         SolvedType::Float => {
-                            self.emit(st, Instr::PushFloat("0.0".into()));
+                            // -0.0 - x is the exact IEEE negation of x (0.0 - x loses the sign of zero)
+                            self.emit(st, Instr::PushFloat("-0.0".into()));
                             self.translate_expr(right, offset_table, mono, st);
                             self.emit(st, Instr::SubFloat(Reg::Top, Reg::Top, Reg::Top))
                         }
